@@ -1197,11 +1197,32 @@ class _Identifiers:
                 **node.exception_kwargs,
             )
 
+    def _reject_named_blocks(self, defnode):
+        # a def that is not the subject of this _Identifiers may never get
+        # one of its own (a later def of the same name replaces it in
+        # topleveldefs / closuredefs), so look for misplaced blocks here
+        class FindNamedBlocks:
+            def visitBlockTag(s, node):
+                if not node.is_anonymous:
+                    raise exceptions.CompileException(
+                        "Named block '%s' not allowed inside of def '%s'"
+                        % (node.name, defnode.name),
+                        **node.exception_kwargs,
+                    )
+                for n in node.nodes:
+                    n.accept_visitor(s)
+
+        f = FindNamedBlocks()
+        for n in defnode.nodes:
+            n.accept_visitor(f)
+
     def visitDefTag(self, node):
         if node.is_root() and not node.is_anonymous:
             self._check_name_exists(self.topleveldefs, node)
         elif node is not self.node:
             self._check_name_exists(self.closuredefs, node)
+        if node is not self.node:
+            self._reject_named_blocks(node)
 
         for ident in node.undeclared_identifiers():
             if ident != "context" and ident not in self.declared.union(
